@@ -230,7 +230,14 @@ def doBatch (toks : List String) : String :=
           let cr := t.crypto
           match firstMissing t (txs.flatMap (queries cr cfg h)) with
           | some q => "oracle-miss " ++ queryName q
-          | none => String.ofList ((admitFlags cr cfg h [] txs).map (fun b => if b then '1' else '0'))
+          | none =>
+            -- entry "worker+k" / "write+k" / "runwrite+k": the first k transactions are already in the
+            -- pool (put there directly), the handler sees the rest
+            let k := match (_entry.splitOn "+") with
+              | [_, ks] => ks.toNat?.getD 0
+              | _ => 0
+            let pre := (txs.take k).map (·.hash)
+            String.ofList ((admitFlags cr cfg h pre (txs.drop k)).map (fun b => if b then '1' else '0'))
     | _, _, _ => "bad-op"
   | _ => "bad-op"
 
